@@ -243,7 +243,20 @@ def e2(ctx):
                     info['ok'] = False
                     info['why'] = why
                     info['wit'] = info['wit'] or fmt_trace(tr)
+    # implicit deletes: INSERT OR REPLACE on Cache removes the conflicting row behind the back of the file cleanup
+    implicit = []
+    for f in core_entries(ctx):
+        if f.cls != 'Cache':
+            continue
+        for p in ctx.paths(f, 'default'):
+            for ev in sql_events(p.trace, 'insert', 'Cache'):
+                if ev.d['stmt'].conflict == 'replace':
+                    implicit.append(ev)
     obs = []
+    obs.append(Ob('E2', 'no-implicit-delete', not implicit,
+                  'INSERT OR REPLACE INTO Cache deletes the existing row implicitly: its value file is never released, '
+                  'its rowid (insertion order of Index, iteration order) changes and no removal rule classifies it',
+                  implicit[0].fn.loc(implicit[0].node) if implicit else ''))
     for k in sorted(sites):
         info = sites[k]
         key = '%s/%s' % (info['ev'].fn.qual.replace('core.', ''), info['role'])
